@@ -26,3 +26,8 @@ package vgirpc
 //@   requires s != nil
 //@   ensures [admit] (result == nil) <==> (present && canonicalSemver(clientVersion) &&
 //@       decval(semverPart(clientVersion,1)) == serverMajor(s) && decval(semverPart(clientVersion,2)) == serverMinor(s))
+//@   # the refusal names the side that has to upgrade: the client iff it is older (lexicographic on major, minor)
+//@   ensures [local_direction_client] result != nil && (major < serverMajor || (major == serverMajor && minor < serverMinor)) ==>
+//@       direction == "client is too old; upgrade the VGI extension/client to a version supporting protocol_version " + s.protocolVersion + "."
+//@   ensures [local_direction_server] result != nil && !(major < serverMajor || (major == serverMajor && minor < serverMinor)) ==>
+//@       direction == "server is too old; upgrade the VGI worker to a version supporting protocol_version " + clientVersion + "."
